@@ -30,7 +30,7 @@ SPEC_UNITS = ("A", "Angstrom", "Bohr", "au", "fm", "pm", "nm")      # DOMAIN Per
 INV = ("TypeOK", "TextDenotesTruth")
 PROPS = ("LoadFaithful", "UnitsPreserveDistance")
 ACTIONS = ("Make", "Dump", "Foreign", "Load")
-DEVIATIONS = ("DevInverted", "DevEnsUnits", "DevEmpty", "DevFrames", "DevColumns")
+DEVIATIONS = ("DevInverted", "DevEnsUnits", "DevEmpty", "DevFrames", "DevColumns", "DevDummy")
 
 
 def tla_set(xs):
@@ -165,7 +165,12 @@ def rand_coord(rnd):
 
 
 def rand_els(rnd, n):
-    return [DUMMY if rnd.random() < 0.08 else rnd.choice(SYMBOLS) for _ in range(n)]
+    """(element, atom type class): no-element dummies, and atoms of dummy TYPE that carry a real element."""
+    out = []
+    for _ in range(n):
+        r = rnd.random()
+        out.append((DUMMY, "dummy") if r < 0.08 else (rnd.choice(SYMBOLS), "dummy" if r < 0.22 else "regular"))
+    return out
 
 
 def rand_obj(rnd, cls=None, nmax=12):
@@ -173,8 +178,8 @@ def rand_obj(rnd, cls=None, nmax=12):
     n = rnd.choice((0, 1, 2, 3, rnd.randint(0, nmax)))
     els = rand_els(rnd, n)
     k = rnd.randint(1, 5) if cls == ENS else 1
-    return {"cls": cls, "frames": [[{"el": e, "x": rand_coord(rnd), "y": rand_coord(rnd), "z": rand_coord(rnd)} for e in els]
-                                   for _ in range(k)]}
+    return {"cls": cls, "frames": [[{"el": e, "ty": t, "x": rand_coord(rnd), "y": rand_coord(rnd), "z": rand_coord(rnd)}
+                                    for e, t in els] for _ in range(k)]}
 
 
 def loads_for(rnd, fmt, unit, homogeneous, all_aliases):
@@ -207,11 +212,11 @@ def rand_file(rnd, units):
     na = rnd.randint(1 if fmt == "mol2" else 0, 10)
     homog = rnd.random() < 0.7
     frames = []
-    els = rand_els(rnd, na)
+    els = [e for e, _ in rand_els(rnd, na)]
     for j in range(k):
         if not homog and j:
             na = rnd.randint(1 if fmt == "mol2" else 0, 10)
-            els = rand_els(rnd, na)
+            els = [e for e, _ in rand_els(rnd, na)]
         mag = rnd.choice((lim, lim, max(1000, lim // 1000), 1000))
         frames.append([{"k": "atom", "el": el, "x": rnd.randint(-mag, mag), "y": rnd.randint(-mag, mag), "z": rnd.randint(-mag, mag)}
                        for el in els])
@@ -246,7 +251,7 @@ def bundled_scripts(lab, rnd, units):
         script += loads_for(rnd, "xyz", "Angstrom", hom, units)
         out.append((f"file-{name}", script))
         q = 10 ** (6 - dec)
-        mk = lambda f: [{"el": a["el"], "x": {"u": a["x"] * q, "s": 0}, "y": {"u": a["y"] * q, "s": 0}, "z": {"u": a["z"] * q, "s": 0}}
+        mk = lambda f: [{"el": a["el"], "ty": "dummy" if a["el"] == DUMMY else "regular", "x": {"u": a["x"] * q, "s": 0}, "y": {"u": a["y"] * q, "s": 0}, "z": {"u": a["z"] * q, "s": 0}}
                         for a in f]
         if hom:
             g = {"cls": ENS, "frames": [mk(f) for f in frames]}
@@ -276,6 +281,10 @@ def scripts(lab, tier, seed, units):
         op, hom = rand_file(rnd, units)
         out.append((f"file{i}", [op] + loads_for(rnd, op["fmt"], op["unit"], hom, units)))
     out += bundled_scripts(lab, rnd, units)
+    for cls in ("Molecule", "Structure", ENS):               # atoms of dummy TYPE with real elements, as a mol2 file gives them
+        out.append((f"loaded-dummy.mol2-{cls}", [{"op": "make_loaded", "file": "dummy.mol2", "cls": cls},
+                                                  {"op": "dump", "route": rnd.choice(("dumps", "dump"))}]
+                    + loads_for(rnd, "xyz", "Angstrom", True, units)))
     return out
 
 
@@ -292,6 +301,10 @@ def execute(lab, script):
         if o == "make":
             obj = lab.build(op["g"])
             evs.append({"ev": "make", "g": op["g"]})
+        elif o == "make_loaded":                              # the object a real mol2 load returns; the model is told what it holds
+            import molli as ml
+            obj = lab.cls[op["cls"]].load_mol2(ml.files.ROOT / op["file"])
+            evs.append({"ev": "make", "g": lab.abstract_obj(obj)})
         elif o == "dump":
             lab.dump(obj, op["route"], stream)
             text, fmt, obj = stream.getvalue(), "xyz", None
